@@ -22,8 +22,10 @@ Ties Model/SubWf.v to the real code of /repo:
                     (number of children), wait-before policy, target, base-input of an ad-hoc action; each observation is
                     compared with Model/EnvTree.v env_seen of the translated site that builds that expression's context.
                     Workflow `input` defaults are not evaluated by the engine (stored as text): no site.
-                    `timeout:` (tasks.RegularTask._get_timeout) builds its view WITHOUT an environment layer: env() is null
-                    there at every depth, the root included (listed EnvNone, exempt by name in the theorem; not in the oracle).
+                    `timeout:` (the value RegularTask._get_timeout hands to the executor) and the `retry` count of the failing
+                    leaf are read through env() too; the site of the timeout observation is the one the translated env_uses
+                    names for _get_timeout (FIXED finding, repo commit 457c3c0e: its view had no environment layer, env() was
+                    null in `timeout:` at every depth; oracle signature env:site-not-root-env:timeout:<depth>).
 Oracle (no model): at every depth every one of those sites sees the ROOT execution's environment, also below a caller
   that handed its child an `env` of its own (signature env:site-not-root-env:<site>:<depth>); on the real engine's rows - the parent task ends in the child's state with the child's output as
   result; every descendant records the tree's root and the caller's namespace; every input key reaches the child as
@@ -59,6 +61,8 @@ Environment clause (each: VIOLATION lines with a concrete tree as replay):
   E2 workflow/data_flow.py get_workflow_environment_dict: the `if wf_ex.root_execution_id:` recursion removed
         translated Fixpoint changes: lemma env_dict_linked / theorem C09_env_dict_is_roots break; oracle at every site, depth >= 1
   E3 the same recursion guarded by `and 'env' not in wf_ex.params`: TranslateError (test outside the subset), oracle as E2
+  E4 repo commit 457c3c0e reverted (RegularTask._get_timeout builds a view without environment layer): site EnvNone, not
+        exempt: theorem breaks; oracle env:site-not-root-env:timeout:0..3; correspondence agrees (model follows the code)
 """
 import json
 import random
@@ -90,9 +94,8 @@ MANIFEST = {
                   'recording stubs that replace spec lookup / start in the schedule correspondence; YAQL evaluation. '
                   'Environment clause: trusted are the translator\'s reading of the ContextView arguments (data layers named in '
                   'DATA_LAYERS carry no __env key), env() = context[__env], the ORM relationship root_execution resolving '
-                  'root_execution_id (checked on the rows by the oracle); three sites are exempt by name in the theorem '
-                  '(Model/EnvTree.v exempt_sites): the `timeout:` view has no environment layer at any depth (env() is null '
-                  'there also in a root execution), _get_environment evaluates the stored environment against itself, the '
+                  'root_execution_id (checked on the rows by the oracle); two sites are exempt by name in the theorem '
+                  '(Model/EnvTree.v exempt_sites): _get_environment evaluates the stored environment against itself, the '
                   'ad-hoc action view re-uses the one of RegularAction.schedule (observed on the engine instead).',
     'technique': 'Coq proof (list/string induction, pointwise dictionary lemmas) over hand model; differential correspondence; '
                  'row oracle on the real engine',
@@ -776,6 +779,7 @@ _ENV_TAIL = """
         value: "{{ env() }}"
       target: <% env().get(tgt) %>
       wait-before: <% env().get(wb) %>
+      timeout: <% env().get(to) %>
       on-success: NEXT
     t_no:
       action: verif.act tag="no"
@@ -792,7 +796,7 @@ _ENV_TAIL = """
       action: verif.act tag="eno"
       on-success: fail
 """
-ENV_MID = {'tok': 'MID', 'items': [7, 8, 9], 'wb': 0, 'tgt': 'midtgt', 'region': 'mid'}
+ENV_MID = {'tok': 'MID', 'items': [7, 8, 9], 'wb': 0, 'tgt': 'midtgt', 'region': 'mid', 'to': 99, 'rc': 3}
 
 
 def _env_caller(name, withitems, passenv):
@@ -812,7 +816,8 @@ def _env_caller(name, withitems, passenv):
 
 def _env_leaf():
     s = 'envL:\n  input: [chain, {dflt: "<% env() %>"}]' + _ENV_WF_SITES + '  tasks:\n'
-    s += '    t_act:\n      action: verif.act tag="boom" value=<% env() %>' + _ENV_PUB + _ENV_COND + _ENV_ECOND
+    s += '    t_act:\n      action: verif.act tag="boom" value=<% env() %>\n      retry:\n        count: <% env().get(rc) %>\n        delay: 0'
+    s += _ENV_PUB + _ENV_COND + _ENV_ECOND
     s += _ENV_TAIL.replace('NEXT', 't_adhoc')
     return s
 
@@ -829,7 +834,8 @@ ENV_OBS_SITE = {
     'publish': 'data_flow.publish_variables', 'puberr': 'data_flow.publish_variables',
     'call_publish': 'data_flow.publish_variables', 'call_puberr': 'data_flow.publish_variables',
     'input': 'tasks.Task.get_expression_context', 'with_items': 'tasks.Task.get_expression_context',
-    'wait_before': 'tasks.Task.get_expression_context',
+    'wait_before': 'tasks.Task.get_expression_context', 'retry': 'tasks.Task.get_expression_context',
+    'timeout': '@use:tasks.RegularTask._get_timeout:',     # the site the translated env_uses names for that caller
     'target': 'tasks.RegularTask._get_target',
     'cond': 'direct_workflow.DirectWorkflowController._find_next_tasks',
     'adhoc': 'actions.RegularAction.schedule',
@@ -838,15 +844,19 @@ MISSING = '<no value: not evaluated or evaluation failed>'
 _ENV_SIGS = set()
 
 
-def env_obs_site(obs):
+def env_obs_site(obs, uses=()):
     base = obs[:-2] if obs.endswith(('_y', '_j')) else obs
-    return ENV_OBS_SITE[base]
+    site = ENV_OBS_SITE[base]
+    if site.startswith('@use:'):
+        hits = sorted({s for u, s in uses if u.startswith(site[5:])})
+        return hits[0] if len(hits) == 1 else 'no single use %s in env_uses: %r' % (site[5:], hits)
+    return site
 
 
 def env_project(obs, env):
     """what the observable of `obs` is when env() yields `env` there (None: env() is null)"""
     base = obs[:-2] if obs.endswith(('_y', '_j')) else obs
-    if base in ('cond', 'with_items', 'wait_before', 'target'):
+    if base in ('cond', 'with_items', 'wait_before', 'target', 'timeout', 'retry'):
         if env is None:
             return MISSING            # .get on null fails the expression
         if base == 'cond':
@@ -855,6 +865,10 @@ def env_project(obs, env):
             return len(env['items']) if isinstance(env.get('items'), list) else MISSING
         if base == 'wait_before':
             return bool(env['wb']) if isinstance(env.get('wb'), int) else MISSING
+        if base == 'timeout':        # the timeout the task hands to the executor with the action
+            return env['to'] if isinstance(env.get('to'), int) else MISSING
+        if base == 'retry':          # attempts of the failing leaf action = 1 + retry count
+            return 1 + env['rc'] if isinstance(env.get('rc'), int) else MISSING
         return env.get('tgt')
     return env
 
@@ -862,8 +876,8 @@ def env_project(obs, env):
 def env_expected_obs(kind, outcome):
     obs = ['vars_y', 'vars_j', 'input_y']
     if kind == 'L' and outcome == 'err':
-        return obs + ['puberr_y', 'puberr_j', 'cond_j', 'outerr_y', 'outerr_j']
-    obs += ['publish_y', 'publish_j', 'cond_y', 'input_j', 'target', 'wait_before']
+        return obs + ['retry', 'puberr_y', 'puberr_j', 'cond_j', 'outerr_y', 'outerr_j']
+    obs += ['publish_y', 'publish_j', 'cond_y', 'timeout', 'wait_before', 'input_j', 'target']
     if kind == 'W':
         obs.append('with_items')
     if outcome == 'ok':
@@ -897,12 +911,13 @@ def run_env(case, seed=0):
     if case['outcome'] == 'err':
         d.oracle[('boom', None, None)] = ('err', 'leaf failed')
     names = ['env' + k for k in case['chain']] + ['envL']
-    targets = {}
+    targets, timeouts = {}, {}
     orig = d.add_pending
 
     def rec(kind, payload):
         if kind == 'exec':
             targets[payload['action_ex_id']] = payload['target']
+            timeouts[payload['action_ex_id']] = payload['timeout']
         return orig(kind, payload)
     d.add_pending = rec
     cfg.CONF.set_override('start_subworkflows_via_rpc', bool(case.get('via_rpc')), group='engine')
@@ -951,12 +966,14 @@ def run_env(case, seed=0):
 
             def act_of(t, field):
                 al = acts.get(t.id, []) if t is not None else []
-                if len(al) != 1:
+                if not al or (len(al) != 1 and field != 'input'):
                     return MISSING
                 if field == 'input':
                     return (al[0].input or {}).get('value', MISSING)
                 if field == 'result':
                     return (al[0].output or {}).get('result', MISSING)
+                if field == 'timeout':
+                    return timeouts.get(al[0].id, MISSING)
                 return targets.get(al[0].id, MISSING)
             for lang in ('y', 'j'):
                 obs['vars_' + lang] = (w.context or {}).get('s_vars_' + lang, MISSING)
@@ -980,7 +997,10 @@ def run_env(case, seed=0):
             if t_yes is not None and t_yes.state == 'SUCCESS':
                 obs['input_j'] = act_of(t_yes, 'input')
                 obs['target'] = act_of(t_yes, 'target')
+                obs['timeout'] = act_of(t_yes, 'timeout')
                 obs['wait_before'] = 'wait_before_policy' in (t_yes.runtime_context or {})
+            if w.workflow_name == 'envL' and t_act is not None and t_act.state == 'ERROR':
+                obs['retry'] = len(acts.get(t_act.id, []))
             if t_call is not None and 'with_items' in (t_call.runtime_context or {}):
                 obs['with_items'] = (t_call.runtime_context['with_items'] or {}).get('count', MISSING)
             for nm, key in (('t_adhoc', 'adhoc_y'), ('t_adhoc_j', 'adhoc_j')):
@@ -1011,6 +1031,7 @@ def env_oracle(ctx, case, res):
         ctx.fail('env:run-failed', 'the tree could not be run: start=%s escaped=%r' % (res['start'], res['entry_errors']), rep)
         return
     want = 1
+    before = len(ctx.failures)
     for depth, kind in enumerate(kinds):
         level = [e for e in res['execs'] if e['depth'] == depth]
         for e in level:
@@ -1032,7 +1053,9 @@ def env_oracle(ctx, case, res):
                              '[execution %s %s; failed tasks %r]' % (
                                  o, e['name'], depth, e['path'], e['owns'][-1] if e['owns'] else None, got, exp,
                                  e['state'], e['state_info'][:150], e['task_errors'][:2]), rep)
-        if len(level) != want:
+                    if got == MISSING:
+                        break             # what follows in this execution did not run: knock-on, not a site of its own
+        if len(level) != want and len(ctx.failures) == before:
             ctx.fail('env:site-not-root-env:tree:%d' % depth, '%d executions at depth %d, the root environment (items %r) requires %d' % (
                 len(level), depth, root_env.get('items'), want), rep)
         if kind == 'W':
@@ -1069,7 +1092,7 @@ ENV_VALS = ['eu', 'us-east', 0, 1, 42, [1, 2], [], {'k': 'v'}, {'deep': {'x': [1
 def gen_env_case(rng, depth=None):
     depth = rng.choice([0, 1, 1, 2, 2, 3, 3]) if depth is None else depth
     env = {'tok': 'ROOT', 'items': rng.choice([[1], [1, 2], [5, 6], [3]]), 'wb': rng.choice([0, 0, 1]),
-           'tgt': rng.choice(['roottgt', 'grp-a', 'x1'])}
+           'tgt': rng.choice(['roottgt', 'grp-a', 'x1']), 'to': rng.choice([30, 60, 600]), 'rc': rng.choice([0, 1, 1, 2])}
     for k in rng.sample(ENV_KEYS, rng.randrange(0, 4)):
         env[k] = rng.choice(ENV_VALS)
     return {'chain': [rng.choice(['P', 'P', 'W', 'E']) for _ in range(depth)], 'env': env,
@@ -1107,16 +1130,18 @@ def suite_env_tree(ctx):
     ctx.cov['suites']['env_tree']['shapes'] = shapes
     ctx.sample({'suite': 'env_tree', 'case': cases[0]})
     try:
-        model = [parse_seen_all(r) for r in core.coq_eval('c09env', ENV_IMPORTS, exprs, chunk=40)]
+        raw = core.coq_eval('c09env', ENV_IMPORTS, exprs + ['env_uses'], chunk=40)
     except core.CoqEvalError as e:
         ctx.obligation('correspondence:env-model-evaluates', False, str(e))
         return
+    model = [parse_seen_all(r) for r in raw[:-1]]
+    uses = core.re.findall(r'\("([^"]*)",\s*"([^"]*)"\)', raw[-1])
     nobs = 0
     for c, res in zip(cases, runs):
         for e in res['execs']:
             m = model[keys[json.dumps([c['env'], e['owns']], sort_keys=True)]]
             for o, got in sorted(e['obs'].items()):
-                site = env_obs_site(o)
+                site = env_obs_site(o, uses)
                 if site not in m:
                     ctx.disagree('env_tree', {'case': c, 'obs': o}, 'site %s is not in the translated list' % site, got)
                     continue
